@@ -5,7 +5,7 @@ import SimbodyModel.Proto
 LAPACK/OpenBLAS (getrf/getrs/getri, potrf/potrs, geqp3/tzrzf/ormqr/ormrz/laic1, gelss/gesdd, geev/syev) are vendored
 and not modelled.  What is modelled:
 * exact-rational **acceptance predicates** evaluated on the doubles the implementation returned
-  (`luAccept`, `lsAccept` + `minNormAccept`, `svdAccept`, `eigAccept`, `symEigAccept`, `invAccept`);
+  (`luAccept`, `lsAccept` + `minNormAccept`, `svdAccept`, `eigAccept` + `spectrumAccept`, `invAccept`, `pinvAccept`);
 * an exact Gauss–Jordan reduction over `Rat` (`rref`, `nullBasis`, `exactRank`) used as the reference for rank and null
   space of exactly representable (small-integer) matrices;
 * the wrapper logic that is Simbody's: the default reciprocal-condition threshold of `FactorQTZ`/`FactorSVD`
@@ -49,11 +49,6 @@ def descendingNonneg : List Rat → Bool
   | [a] => decide (0 ≤ a)
   | a :: b :: rest => decide (b ≤ a) && descendingNonneg (b :: rest)
 
-def ascending : List Rat → Bool
-  | [] => true
-  | [_] => true
-  | a :: b :: rest => decide (a ≤ b) && ascending (b :: rest)
-
 /-- columns of `U` (given as rows of `Ut`) are orthonormal up to `tol` -/
 def orthoAccept (tol : Rat) (Ut : Mat) : Bool :=
   (List.range Ut.length).all (fun i => (List.range Ut.length).all (fun j =>
@@ -81,15 +76,27 @@ def eigPairAccept (tol : Rat) (A : Mat) (lr li : Rat) (vr vi : List Rat) : Bool 
     decide (absR (dot row vr - (lr * vr.getD i 0 - li * vi.getD i 0)) ≤ bound row i) &&
     decide (absR (dot row vi - (lr * vi.getD i 0 + li * vr.getD i 0)) ≤ bound row i)))
 
-/-- all eigenpairs of a real matrix; `Vr`, `Vi` hold the vectors as rows -/
+def sumR (v : List Rat) : Rat := v.foldl (· + ·) 0
+
+/-- completeness of a spectrum (a pair returned twice, or one missing, changes the power sums):
+`Σλ = tr A` and `Σλ² = tr A²` for the complex numbers `λ = lr + i·li` (real and imaginary parts separately) -/
+def spectrumAccept (tol : Rat) (A : Mat) (lr li : List Rat) : Bool :=
+  let n := A.length
+  let tr := sumR ((List.range n).map (fun i => (A.getD i []).getD i 0))
+  let trAbs := sumR ((List.range n).map (fun i => absR ((A.getD i []).getD i 0)))
+  let tr2 := sumR ((List.range n).map (fun i => dot (A.getD i []) (col A i)))
+  let tr2Abs := sumR ((List.range n).map (fun i => absDot (A.getD i []) (col A i)))
+  let lam1 := sumR (List.zipWith (fun a b => absR a + absR b) lr li)
+  let lam2 := sumR (List.zipWith (fun a b => a * a + b * b) lr li)
+  decide (absR (sumR lr - tr) ≤ tol * (trAbs + lam1)) && decide (absR (sumR li) ≤ tol * (trAbs + lam1)) &&
+  decide (absR (sumR (List.zipWith (fun a b => a * a - b * b) lr li) - tr2) ≤ tol * (tr2Abs + lam2)) &&
+  decide (absR (sumR (List.zipWith (fun a b => 2 * a * b) lr li)) ≤ tol * (tr2Abs + lam2))
+
+/-- all eigenpairs of a real matrix; `Vr`, `Vi` hold the vectors as rows; plus the power-sum completeness check -/
 def eigAccept (tol : Rat) (A : Mat) (lr li : List Rat) (Vr Vi : Mat) : Bool :=
   lr.length == A.length && li.length == A.length && Vr.length == A.length && Vi.length == A.length &&
+  spectrumAccept tol A lr li &&
   (List.range A.length).all (fun k => eigPairAccept tol A (lr.getD k 0) (li.getD k 0) (Vr.getD k []) (Vi.getD k []))
-
-/-- symmetric input: real eigenvalues in ascending order, orthonormal vectors (rows of `Vt`), `A v = λ v` -/
-def symEigAccept (tol : Rat) (A : Mat) (lam : List Rat) (Vt : Mat) : Bool :=
-  ascending lam && orthoAccept tol Vt && lam.length == A.length && Vt.length == A.length &&
-  (List.range A.length).all (fun k => eigPairAccept tol A (lam.getD k 0) 0 (Vt.getD k []) ((Vt.getD k []).map (fun _ => 0)))
 
 def absSum (v : List Rat) : Rat := (v.map absR).foldl (· + ·) 0
 def maxAbs (v : List Rat) : Rat := (v.map absR).foldl (fun a b => if a < b then b else a) 0
@@ -103,6 +110,23 @@ def invAccept (tol : Rat) (A X : Mat) : Bool :=
   (List.range n).all (fun i => (List.range n).all (fun j =>
     decide (absR (dot (A.getD i []) (Xt.getD j []) - kron i j) ≤ tol * (absSum (A.getD i []) * maxAbs (Xt.getD j []) + kron i j)) &&
     decide (absR (dot (X.getD i []) (At.getD j []) - kron i j) ≤ tol * (maxAbs (X.getD i []) * absSum (At.getD j []) + kron i j))))
+
+def matMul (A B : Mat) (ncolsB : Nat) : Mat :=
+  let Bt := transpose B ncolsB
+  A.map (fun r => Bt.map (fun c => dot r c))
+
+/-- Moore–Penrose conditions 1 and 2 for a reported (pseudo-)inverse `X` of a square matrix `A`, normwise:
+`|A X A − A|_ij ≤ tol·‖A‖max·(1+‖X‖max‖A‖max·n²)` and the same with the roles exchanged -/
+def pinvAccept (tol : Rat) (A X : Mat) : Bool :=
+  let n := A.length
+  let amax := maxAbs (A.map maxAbs)
+  let xmax := maxAbs (X.map maxAbs)
+  let nn : Rat := (n * n : Nat)
+  let AXA := matMul (matMul A X n) A n
+  let XAX := matMul (matMul X A n) X n
+  (List.range n).all (fun i => (List.range n).all (fun j =>
+    decide (absR ((AXA.getD i []).getD j 0 - (A.getD i []).getD j 0) ≤ tol * amax * (1 + nn * xmax * amax)) &&
+    decide (absR ((XAX.getD i []).getD j 0 - (X.getD i []).getD j 0) ≤ tol * xmax * (1 + nn * xmax * amax))))
 
 /-! ## exact reference: Gauss–Jordan over `Rat` -/
 
@@ -142,6 +166,20 @@ def nullBasis (A : Mat) (ncols : Nat) : List (List Rat) :=
       | some pr => -(pr.2.getD f 0)
       | none => 0))
 
+/-- run-time certificate for the exact reference (it is not proved correct): the null vectors have the unit pattern on the
+free columns (hence are linearly independent), their number plus the rank is `ncols`, and the rank of the transpose,
+computed by an independent elimination, is the same.  (That every vector is *exactly* in the kernel is checked by
+`minNormAccept`.) -/
+def refAccept (A : Mat) (ncols : Nat) : Bool :=
+  let R := rref A ncols
+  let pivs := R.map (·.1)
+  let free := (List.range ncols).filter (fun f => !pivs.contains f)
+  let N := nullBasis A ncols
+  N.length + R.length == ncols && free.length == N.length &&
+  exactRank (transpose A ncols) A.length == R.length &&
+  (List.range N.length).all (fun k => (List.range free.length).all (fun l =>
+    decide ((N.getD k []).getD (free.getD l 0) 0 = kron k l)))
+
 /-! ## Simbody's own wrapper logic -/
 
 /-- default `rcond` of `FactorQTZ(m)` / `FactorSVD(m)`: `max(nRow,nCol) * NTraits<P>::getSignificant()` -/
@@ -151,5 +189,16 @@ def defaultRcond {K : Type} [Mul K] (ofNat : Nat → K) (nRow nCol : Nat) (signi
 /-- rank by threshold as written in `FactorSVDRep::computeSVD`: `for i<mn: if (values[i] > rcond*values[0]) rank++` -/
 def svdRank {K : Type} [Mul K] [LT K] [DecidableLT K] [OfNat K 0] (values : List K) (rcond : K) : Nat :=
   (values.filter (fun v => rcond * values.getD 0 0 < v)).length
+
+/-- `FactorQTZ(A).getRank()` for the `m×n` matrix with `A₀₀ = 1`, `A₁₁ = t` (`0 < t < 1`) and zeros elsewhere: pivoted QR
+leaves `R = diag(1,t)`, the incremental condition estimate is exact for a diagonal matrix, so the second column is
+accepted iff `smax·rcond < smin`, i.e. `rcond < t` -/
+def qtzDiagRank {K : Type} [Mul K] [LT K] [DecidableLT K] (ofNat : Nat → K) (m n : Nat) (significant t : K) : Nat :=
+  if defaultRcond ofNat m n significant < t then 2 else 1
+
+/-- `FactorSVD(A).solve(b)` for the same matrix (`gelss` treats singular values `≤ rcond·s₁` as zero): the second
+component of the solution of `A x = (1,1,0,…)` is `1/t` if `t > rcond`, else `0` -/
+def svdDiagKeeps {K : Type} [Mul K] [LT K] [DecidableLT K] (ofNat : Nat → K) (m n : Nat) (significant t : K) : Bool :=
+  decide (defaultRcond ofNat m n significant < t)
 
 end C24
